@@ -62,6 +62,10 @@ func (q mQuote) lib() *bt.FeeQuote {
 	case 2:
 		std.FeeType, data.FeeType = bt.FeeTypeData, bt.FeeTypeStandard
 	}
+	if q.StdSat == q.DataSat && q.StdBytes == q.DataBytes && (q.StdSat+q.StdBytes)%2 == 0 {
+		// a flat rate: ONE Fee object is filed under both types
+		data = std
+	}
 	plain := func() *bt.FeeQuote {
 		return bt.NewFeeQuote().AddQuote(bt.FeeTypeStandard, std).AddQuote(bt.FeeTypeData, data)
 	}
